@@ -188,7 +188,7 @@ external(E + 'Engine._make_store',
          why_trusted='generate_state / Store.build_topology_views build the hierarchy and the views (bounded-checked under C06/C07/C15)')
 external(E + 'Engine._emit_configuration', types={}, why_trusted='emitter side: bounded-checked under C12')
 
-contract(E + 'Engine.__init__', props=['C05', 'C12', 'C01'],
+contract(E + 'Engine.__init__', props=['C05', 'C12', 'C01', 'C03'],
          types={'composite': 'Val', 'processes': 'Val', 'steps': 'Val', 'flow': 'Val', 'topology': 'Val', 'store': 'Val',
                 'initial_state': 'Val', 'experiment_id': 'Val', 'experiment_name': 'Val', 'metadata': 'Val', 'description': 'Val',
                 'emitter': 'Val', 'store_schema': 'Val', 'emit_topology': 'Bool', 'emit_processes': 'Bool', 'emit_config': 'Bool',
@@ -210,5 +210,8 @@ contract(E + 'Engine.__init__', props=['C05', 'C12', 'C01'],
              # exactly the precondition of run_for ...
              'self.g_views_valid', NO_PENDING, EMITS_SORTED, EMITS_PAST,
              'self.global_time == initial_global_time',
+             # C03: a new engine has simulated every process exactly up to its initial time, with nothing pending
+             "forall(lambda p: implies(has(self.front, p), lookup(self.front, p)['time'] == initial_global_time and "
+             "is_alt(lookup(self.front, p)['update'], 'empty')))",
              # ... one step phase before the first row, and exactly one row, for the initial time (C05 / C12)
              'self.g_steps_run == 1', 'len(self.g_emits) == 1', 'self.g_emits[0] == initial_global_time'])
